@@ -150,6 +150,23 @@ func classifyMapRange(pkg *packages.Package, fd *ast.FuncDecl, rs *ast.RangeStmt
 	isLocalToLoop := func(o types.Object) bool {
 		return o != nil && o.Pos() >= rs.Pos() && o.Pos() <= rs.End()
 	}
+	var condHasFoldOnKey func(e ast.Expr) bool
+	condHasFoldOnKey = func(e ast.Expr) bool {
+		e = ast.Unparen(e)
+		if be, ok := e.(*ast.BinaryExpr); ok && be.Op == token.LAND {
+			return condHasFoldOnKey(be.X) || condHasFoldOnKey(be.Y)
+		}
+		c, ok := e.(*ast.CallExpr)
+		if !ok || len(c.Args) != 2 {
+			return false
+		}
+		cal, ok := calleeOf(info, c).(*types.Func)
+		if !ok || cal.Pkg() == nil || cal.Pkg().Path() != "strings" || cal.Name() != "EqualFold" {
+			return false
+		}
+		k := objOf(rs.Key)
+		return k != nil && (objOf(c.Args[0]) == k || objOf(c.Args[1]) == k)
+	}
 	var checkStmt func(s ast.Stmt)
 	checkExprCalls := func(e ast.Node) {
 		ast.Inspect(e, func(nd ast.Node) bool {
@@ -254,16 +271,12 @@ func classifyMapRange(pkg *packages.Package, fd *ast.FuncDecl, rs *ast.RangeStmt
 				checkStmt(x.Init)
 			}
 			checkExprCalls(x.Cond)
-			if c, ok := ast.Unparen(x.Cond).(*ast.CallExpr); ok && len(c.Args) == 2 && x.Else == nil {
-				if cal, ok := calleeOf(info, c).(*types.Func); ok && cal.Pkg() != nil && cal.Pkg().Path() == "strings" && cal.Name() == "EqualFold" {
-					if k := objOf(rs.Key); k != nil && (objOf(c.Args[0]) == k || objOf(c.Args[1]) == k) {
-						// the entry whose KEY equals the wanted name up to case: at most one entry when the
-						// keys are unique up to case, which is what a name registry of a case-insensitive
-						// language holds; the selection is then the same in every order
-						foldSelect = true
-						return
-					}
-				}
+			if x.Else == nil && condHasFoldOnKey(x.Cond) {
+				// the entry whose KEY equals the wanted name up to case (possibly filtered further by a
+				// conjunct on the entry): at most one entry when the keys are unique up to case, which is what
+				// a name registry of a case-insensitive language holds; the selection is then the same in every order
+				foldSelect = true
+				return
 			}
 			for _, b := range x.Body.List {
 				checkStmt(b)
@@ -313,7 +326,29 @@ func classifyMapRange(pkg *packages.Package, fd *ast.FuncDecl, rs *ast.RangeStmt
 			flag(x.Pos(), "starts deferred/concurrent work per entry, in map order")
 		}
 	}
+	isFoldOnKey := func(e ast.Expr) bool {
+		c, ok := ast.Unparen(e).(*ast.CallExpr)
+		if !ok || len(c.Args) != 2 {
+			return false
+		}
+		cal, ok := calleeOf(info, c).(*types.Func)
+		if !ok || cal.Pkg() == nil || cal.Pkg().Path() != "strings" || cal.Name() != "EqualFold" {
+			return false
+		}
+		k := objOf(rs.Key)
+		return k != nil && (objOf(c.Args[0]) == k || objOf(c.Args[1]) == k)
+	}
 	for _, s := range rs.Body.List {
+		// if !strings.EqualFold(k, name) { continue } … : what follows is the selection of the one entry whose
+		// key equals the name up to case
+		if is, ok := s.(*ast.IfStmt); ok && is.Else == nil && is.Init == nil && len(is.Body.List) == 1 {
+			if u, ok := ast.Unparen(is.Cond).(*ast.UnaryExpr); ok && u.Op == token.NOT && isFoldOnKey(u.X) {
+				if br, ok := is.Body.List[0].(*ast.BranchStmt); ok && br.Tok == token.CONTINUE {
+					foldSelect = true
+					break
+				}
+			}
+		}
 		checkStmt(s)
 	}
 	if problem != "" {
